@@ -35,16 +35,106 @@ class Iteration:
         return self.f.where_path(self.path)
 
 
+def _continue_test(P):
+    """how the dispatch loop reads the step's result: (kind, value) such that the loop goes round again iff
+       kind 'bool'    : the returned bool equals value                (`while !self.dispatch_event() {}` -> ('bool', False))
+       kind 'variant' : the returned enum is in variant value         (`while let ControlFlow::Continue(()) = ..`, `.is_continue()`)
+    None if no loop around a call of the step is found or its test is not about the result alone."""
+    step = RT + '::dispatch_event'
+    for g in P.fn_list:
+        if g.kind == 'promoted':
+            continue
+        for s in g.calls():
+            if s.name != step or not g.loops_containing(s.b):
+                continue
+            h = innermost_loop(g, s.b)
+            found = set()
+            for path, outcome, decs in g.enum_paths(start=h, stop_at={h}):
+                if outcome != 'stop' or s.b not in path:
+                    continue
+                for _, a in path_atoms(g, path, decs):
+                    subj = a[1] if len(a) > 1 else None
+                    if not isinstance(subj, tuple) or not any(x[0] == 'call' and x[1] == step for x in walk(subj)):
+                        continue
+                    sp = peel_c(subj)
+                    if a[0] == 'bool' and sp[0] == 'call' and sp[1] == step:
+                        found.add(('bool', a[2]))
+                    elif a[0] == 'bool' and sp[0] == 'call' and sp[1].split('::')[-1] in ('is_continue', 'is_break') and sp[2] and peel_c(sp[2][0])[0] == 'call' and peel_c(sp[2][0])[1] == step:
+                        is_c = sp[1].endswith('is_continue')
+                        found.add(('variant', 'Continue' if a[2] == is_c else 'Break'))
+                    elif a[0] == 'is' and sp[0] == 'call' and sp[1] == step and isinstance(a[2], str):
+                        found.add(('variant', a[2]))
+                    elif a[0] == 'isnot' and sp[0] == 'call' and sp[1] == step:
+                        vs = [a[2]] if isinstance(a[2], str) else list(a[2])
+                        other = {'Continue': 'Break', 'Break': 'Continue'}
+                        if len(vs) == 1 and vs[0] in other:
+                            found.add(('variant', other[vs[0]]))
+                        else:
+                            found.add(('?', None))
+                    else:
+                        found.add(('?', None))
+            if len(found) == 1 and ('?', None) not in found:
+                return next(iter(found))
+    return None
+
+
+def _stops(P, f, path, decs, test):
+    """does this returning path of the step end the dispatch loop?  (None = cannot tell)"""
+    if test is None:
+        return None
+    kind, want = test
+    if kind == 'bool':
+        v = path_truth(f, path, decs, path_ret(f, path))
+        return None if v is None else (v != want)
+    r = path_ret_resolved(f, path)
+    r = peel(r) if r is not None else None
+    if r is not None and r[0] == 'agg' and isinstance(r[1], str):
+        return r[1].split('::')[-1] != want
+    return None
+
+
+def counter_field(ctx, cfg='A'):
+    """role: the dispatch counter = the field of Runtime that a dispatching step replaces by its old value + 1 (`itr` on the
+    pinned tree); None if there is no such single field"""
+    key = ('counter_field', cfg)
+    if key in ctx.__dict__.setdefault('_roles', {}):
+        return ctx._roles[key]
+    f, its, form = dispatch_iterations(ctx, cfg)
+    cands = None
+    for it in its:
+        if not any(e[0] == 'c' and e[1].callee == HANDLE for e in it.effs):
+            continue
+        here = set()
+        for e in it.effs:
+            if e[0] != 'w' or not str(e[3] or '').startswith(RT):
+                continue
+            if e[1] == 'inc':
+                here.add(e[2])
+                continue
+            if e[4] is None:
+                continue
+            v = peel(e[4])
+            v = v[1] if (v[0] == 'field' and v[1][0] == 'bin') else v
+            if v[0] == 'bin' and v[1].startswith('Add') and ('int', 1) in (peel(v[2]), peel(v[3])) and \
+                    any(peel(x)[0] == 'field' and peel(x)[2] == e[2] for x in (v[2], v[3])):
+                here.add(e[2])
+        cands = here if cands is None else (cands & here)
+    res = next(iter(cands)) if cands and len(cands) == 1 else None
+    ctx._roles[key] = res
+    return res
+
+
 def dispatch_iterations(ctx, cfg='A'):
     """(function holding the step, [Iteration], form) ; form = 'function' | 'loop' ; (None, [], None) if unresolvable"""
     P = ctx.progs[cfg]
     f = P.fns.get(RT + '::dispatch_event')
     if f is not None:
         its = []
+        test = _continue_test(P)
         for path, outcome, decs in fn_paths(ctx, f):
             if outcome != 'return':
                 continue
-            its.append(Iteration(f, path, decs, path_truth(f, path, decs, path_ret(f, path))))
+            its.append(Iteration(f, path, decs, _stops(P, f, path, decs, test)))
         return f, its, 'function'
     for g in P.scope_of(RT + '::dispatch_event'):
         hs = [s for s in g.calls() if s.callee == HANDLE and g.loops_containing(s.b)]
